@@ -501,7 +501,7 @@ def finish(ctx, coverage=None, assumptions=None, explanation=None):
     if explanation:
         cov['explanation'] = explanation
     cov.update(coverage)
-    level = ctx.level
+    level = claimed_level(ctx.pid) or ctx.level
     if level == 'proof' and (cov['obligations'] < 1 or cov['discharged'] < 1):
         # cannot honestly claim proof on this run
         level = 'other'
@@ -528,6 +528,17 @@ def finish(ctx, coverage=None, assumptions=None, explanation=None):
         sys.exit(1)
     log('%s: ok (%d/%d obligations, %.1fs)' % (ctx.pid, len(ctx.discharged), len(ctx.obligations), time.time() - ctx.t0))
     sys.exit(0)
+
+
+def claimed_level(pid):
+    """the level category claimed for this property in tools/claims.json (MANIFEST.json is generated from it)"""
+    try:
+        for c in json.load(open(os.path.join(VERIF, 'tools', 'claims.json'))):
+            if c['id'] == pid:
+                return c['category']
+    except Exception:
+        pass
+    return None
 
 
 class Rng:
